@@ -21,11 +21,16 @@ Definition run_model_custom (tbl : list (N * N)) (fl : list bool) (bytes : list 
 Fixpoint subset_N (a b : list N) : bool :=
   match a with [] => true | x :: r => if mem_N x b then subset_N r b else false end.
 
+(* The model's `panic` flag = a pop of an empty parser helper stack. Since the repair of the parser helpers the
+   real parser records error E2 there (Parse fails) and carries on; the model stops executing that action's
+   remaining effects, so after such an event only "Go rejected the input" is compared. *)
 Definition k1_ok (c : k1_case) : bool :=
   let '(fl, bytes, (ok, off_, cnt_, (mo, ml, mc), ops)) := c in
   let r := run_model fl bytes in
+  if r_panic r then negb ok && negb (r_unknown r) && negb (r_fuelout r)
+  else
   let mok := r_ok r && (r_errs r =? 0) in
-  negb (r_panic r) && negb (r_unknown r) && negb (r_fuelout r) &&
+  negb (r_unknown r) && negb (r_fuelout r) &&
   Bool.eqb mok ok && (r_cnt r =? cnt_) &&
   (let '(a, b, c') := r_mf r in (a =? mo) && (b =? ml) && (c' =? mc)) &&
   (if ok then (r_off r =? off_) && subset_N ops (r_emitted r) else true).
